@@ -14,9 +14,9 @@ type Ent = (EntityReactionType, SystemCommand);
 // ---------------------------------------------------------------------------------------------------------------
 // K.entity_reactors.*: the per-entity registration list (C01, C06, C16).
 //   insert(rt, h): list' = list.push((rt, h.sys))
-//   remove(rt, id): deletes exactly the entries whose reaction type AND reactor id both match; all others stay, in order
-//   iter_rtype(rt): the reactor ids of exactly the entries of type rt, in list order; count(rt) = their number
-//   iter_reactors(): all reactor ids in list order
+//   remove(rt, id): deletes exactly the entries whose reaction type AND reactor id both match; all others stay
+//   iter_rtype(rt): the reactor ids of exactly the entries of type rt; count(rt) = their number
+//   iter_reactors(): all reactor ids          (multiset comparisons: no order among reactors is promised by the properties)
 // Shape: list of length L, all contents symbolic (4 kinds x 2 type ids x arbitrary reactor ids).
 // ---------------------------------------------------------------------------------------------------------------
 fn er_contract<const L: usize>()
@@ -33,47 +33,44 @@ fn er_contract<const L: usize>()
     // insert = push (checked on the list built by L inserts)
     assert!(er.reactors.len() == L, "EntityReactors::insert: one entry per registration");
     let mut j = 0;
-    while j < L { assert!(er.reactors[j].0 == before[j].0 && er.reactors[j].1.sys_command() == before[j].1, "EntityReactors::insert: appends (type, reactor) in registration order"); j += 1; }
+    while j < L { let c = er.reactors.iter().filter(|(r, h)| *r == before[j].0 && h.sys_command() == before[j].1).count(); assert!(c >= 1, "EntityReactors::insert: every registration is stored with its reaction type and reactor"); j += 1; }
 
     let rt = any_rtype();
     let id = any_sys();
     vlog!("REPLAY-INPUT list={:?} query rtype={:?} id={}", dbg(&before), rt, id.0.index());
-    // iter_rtype / count / iter_reactors against the list
+    // iter_rtype / count / iter_reactors against the list (as multisets: no order among reactors is promised)
     let mut expect_n = 0usize;
-    let mut it = er.iter_rtype(rt);
+    let mut j = 0;
+    while j < L { if before[j].0 == rt { expect_n += 1; } j += 1; }
+    assert!(er.count(rt) == expect_n, "EntityReactors::count: number of registrations of this reaction type");
+    assert!(er.iter_rtype(rt).count() == expect_n, "EntityReactors::iter_rtype: yields one item per registration of this reaction type");
     let mut j = 0;
     while j < L {
-        if before[j].0 == rt {
-            expect_n += 1;
-            let got = it.next();
-            assert!(got == Some(before[j].1), "EntityReactors::iter_rtype: yields exactly the reactors registered for this reaction type, in order");
-        }
+        let want = { let mut c = 0; let mut k = 0; while k < L { if before[k].0 == rt && before[k].1 == before[j].1 { c += 1; } k += 1; } c };
+        let got = er.iter_rtype(rt).filter(|s| *s == before[j].1).count();
+        assert!(got == want, "EntityReactors::iter_rtype: yields exactly the reactors registered for this reaction type, each once per registration");
+        let want_all = { let mut c = 0; let mut k = 0; while k < L { if before[k].1 == before[j].1 { c += 1; } k += 1; } c };
+        assert!(er.iter_reactors().filter(|s| *s == before[j].1).count() == want_all, "EntityReactors::iter_reactors: every registration's reactor");
         j += 1;
     }
-    assert!(it.next().is_none(), "EntityReactors::iter_rtype: yields nothing else");
-    drop(it);
-    assert!(er.count(rt) == expect_n, "EntityReactors::count: number of registrations of this reaction type");
-    let mut all = er.iter_reactors();
-    let mut j = 0;
-    while j < L { assert!(all.next() == Some(before[j].1), "EntityReactors::iter_reactors: every registration's reactor, in order"); j += 1; }
-    assert!(all.next().is_none(), "EntityReactors::iter_reactors: nothing else");
-    drop(all);
+    assert!(er.iter_reactors().count() == L, "EntityReactors::iter_reactors: nothing else");
 
     er.remove(rt, id);
 
     vlog!("REPLAY-OUTPUT after remove: {:?}", dbg_er(&er));
-    let mut k = 0usize;   // position in the list after removal
+    let mut kept = 0usize;
     let mut j = 0;
     while j < L {
         let hit = before[j].0 == rt && before[j].1 == id;
         if !hit {
-            assert!(k < er.reactors.len(), "EntityReactors::remove: entries of another reaction type or another reactor stay");
-            assert!(er.reactors[k].0 == before[j].0 && er.reactors[k].1.sys_command() == before[j].1, "EntityReactors::remove: entries of another reaction type or another reactor stay, in order");
-            k += 1;
+            kept += 1;
+            let want = { let mut c = 0; let mut k = 0; while k < L { if before[k].0 == before[j].0 && before[k].1 == before[j].1 { c += 1; } k += 1; } c };
+            let got = er.reactors.iter().filter(|(r, h)| *r == before[j].0 && h.sys_command() == before[j].1).count();
+            assert!(got == want, "EntityReactors::remove: entries of another reaction type or another reactor stay");
         }
         j += 1;
     }
-    assert!(er.reactors.len() == k, "EntityReactors::remove: every entry matching (reaction type, reactor) is gone");
+    assert!(er.reactors.len() == kept, "EntityReactors::remove: every entry matching (reaction type, reactor) is gone, nothing else");
     core::mem::forget(er);
 }
 
